@@ -88,7 +88,7 @@ def _depth(tier):
     return 3 if tier == "quick" else 4
 
 
-HISTORY_STARTS = ("ctor", "unpack")
+HISTORY_STARTS = ("ctor", "unpack", "default")  # default: the header of a PduConfig.default() (the alternate constructor of the configuration)
 
 
 def recipe_of(flags, idw, seqw, dlen, src=None, seq=None, dst=None):
@@ -384,7 +384,11 @@ def family(action):
     return action.split(":")[0] if not action.startswith(("flip:", "pdu_conf.flip:")) else action.replace("flip:", "")
 
 
-def start_model(bg):
+def start_model(bg, start="ctor"):
+    if start == "default":  # what PduConfig.default() documents: one-octet IDs and sequence number 0, acknowledged, no CRC, normal files
+        rc, m = start_model(bg)
+        m.update({"dir": 0, "mode": 0, "crc": 0, "large": 0, "segctrl": 0, "idw": 1, "seqw": 1, "src": 0, "seq": 0, "dst": 0})
+        return rc, m
     fl, idw, seqw, dlen, src, seq, dst = background(bg)
     rc = recipe_of(fl, idw, seqw, dlen, src, seq, dst)
     cfg = U.norm(rc)["cfg"]
@@ -534,6 +538,9 @@ def start_object(start, m, ref):
         return L.PduHeader(L.PduType(m["ptype"]), L.SegmentMetadataFlag(m["segmeta"]), m["dlen"], conf)
     if start == "unpack":
         return U.L.PduHeader.unpack(ref + TAIL)
+    if start == "default":
+        L = U.L
+        return L.PduHeader(L.PduType(m["ptype"]), L.SegmentMetadataFlag(m["segmeta"]), m["dlen"], L.PduConfig.default())
     raise AssertionError(start)
 
 
@@ -578,7 +585,7 @@ def run_history(rec, start, bg, hist, rc, m0, ref0):
 
 def run_histories(rec, start, bg, first, depth):
     """every history of length <= depth whose first action is ACTIONS[first] (the empty history goes with first == 0)"""
-    rc, m0 = start_model(bg)
+    rc, m0 = start_model(bg, start)
     ref0 = model_ref(m0)
     n = 0
     if first == 0:
@@ -700,7 +707,7 @@ def shards(tier):
     for part in range(8):
         items.append({"job": "alias", "part": part, "parts": 8})
     for start in HISTORY_STARTS:
-        for bg in range(4):
+        for bg in range(4 if start != "default" else 2):
             for first in range(len(ACTIONS)):
                 items.append({"job": "history", "start": start, "bg": bg, "first": first, "depth": _depth(tier)})
     return items
@@ -814,7 +821,7 @@ def replay(case):
         rec.case(True)
         setter_path(rec, unit.build(case["first"]), case["recipe"], case["how"])
     elif case["kind"] == "history":
-        rc, m0 = start_model(case["bg"])
+        rc, m0 = start_model(case["bg"], case["start"])
         run_history(rec, case["start"], case["bg"], tuple(case["actions"]), rc, m0, model_ref(m0))
     elif case["kind"] == "alias":
         alias_case(rec, int(case["a"]), int(case["b"]))
